@@ -434,13 +434,13 @@ def check(run):
                 "and a store / return of exactly the raw element that failed is reached; otherwise a ParseError goes to "
                 "handle_error; the policy attribute matches the element kind (R11a). Required fields raise under EXCLUDE "
                 "(R11b). Element parsers only apply operations every dispatched container type supports (R04c).")
-    r11a(run)
-    r11b(run)
-    r11c(run)
-    r11d(run)
-    r11e(run)
-    r11g(run)
+    run.rule(r11a, run)
+    run.rule(r11b, run)
+    run.rule(r11c, run)
+    run.rule(r11d, run)
+    run.rule(r11e, run)
+    run.rule(r11g, run)
     from . import c10
-    c10.r10f(run)
-    c10.r10h(run)
-    c04.r04c(run)
+    run.rule(c10.r10f, run)
+    run.rule(c10.r10h, run)
+    run.rule(c04.r04c, run)
